@@ -845,6 +845,30 @@ def _is_tab_test(fn, test) -> bool:
     return False
 
 
+def _tabstops_whole_pop(prog, why):
+    try:
+        from ..lexsim import LexerSim, Unsupported as _LU
+    except Exception:
+        raise Undecided(f"tab branch of Lexer.pop outside the evaluable subset: {why}")
+    bad = None
+    n_eval = 0
+    try:
+        for col in range(1, 13):
+            for use_spaces in (False, True):
+                sim = LexerSim(prog, "a" * (col - 1) + "\t" + "x")
+                if col > 1:
+                    sim.call("pop", times=col - 1)
+                out = sim.call("pop", use_spaces=use_spaces)
+                n_eval += 1
+                want = 4 - (col - 1) % 4
+                ok = out.kind == "ok" and sim.line_pos == col + want and out.value == (" " * want if use_spaces else "\t")
+                if not ok and bad is None:
+                    bad = (col, sim.line_pos, want, out.value if out.kind == "ok" else repr(out))
+    except _LU as e:
+        raise Undecided(f"Lexer.pop is outside the evaluable subset: {e}")
+    return bad, n_eval
+
+
 def rule_tabstops(run, prog):
     run.rule("R-3.3", "tab stops: the statements Lexer.pop executes for a tab, interpreted by the analyser for start "
              "columns 1..12, advance the column by 1..4 to the next column congruent to 1 modulo 4, and expand to that many "
@@ -890,7 +914,9 @@ def rule_tabstops(run, prog):
                 if (adv != want or (use_spaces and env["result"] != " " * want) or (not use_spaces and env["result"] != "\t")) and bad is None:
                     bad = (col, new, want, env["result"])
     except Unsupported as e:
-        raise Undecided(f"tab branch of Lexer.pop outside the evaluable subset: {e}")
+        # the branch cannot be evaluated in isolation (e.g. it moved into a helper that was inlined back under other
+        # local names): interpret the whole pop() on a tab standing at columns 1..12 instead
+        bad, n_eval = _tabstops_whole_pop(prog, e)
     run.ob("R-3.3", f"{pop.key}::tab-stop", bad is None,
            (f"a tab at column {bad[0]} moves to column {bad[1]} (expected {bad[0] + bad[2]}: tab stops every 4 columns) / "
             f"expands to {bad[3]!r}") if bad else "ok", tab_if, evaluations=n_eval)
